@@ -91,7 +91,12 @@ func (r *Run) count(rule string) int {
 // floor asserts that at least n instances of rule were examined: a rule that
 // matches nothing must not pass vacuously.
 func (r *Run) floor(rule string, n int) {
-	got := r.count(rule)
+	got := 0
+	for _, o := range r.Obls {
+		if ruleMatches(rule, o) {
+			got++
+		}
+	}
 	if got < n {
 		r.fail("floor", rule, "", fmt.Sprintf("rule %s examined %d instances, floor is %d (confirmed by hand on the pinned tree)", rule, got, n))
 	} else {
